@@ -33,6 +33,10 @@ impl SearchTimer {
         self.nodes_searched = 0;
         #[cfg(flounder_verif)]
         self.verif.on_start();
+        #[cfg(flounder_verif)]
+        if self.verif.expired(0) {
+            self.time_limit = Some(Duration::ZERO);
+        }
     }
 
     /// Resets the timer without changing the time limit
@@ -48,6 +52,10 @@ impl SearchTimer {
         self.nodes_searched += 1;
         #[cfg(flounder_verif)]
         self.verif.on_node(self.nodes_searched);
+        #[cfg(flounder_verif)]
+        if self.verif.expired(self.nodes_searched) {
+            self.time_limit = Some(Duration::ZERO);
+        }
     }
 
     /// Adds multiple nodes to the counter
@@ -66,9 +74,7 @@ impl SearchTimer {
     /// `true` if time limit exceeded, `false` otherwise
     pub fn should_stop(&self) -> bool {
         #[cfg(flounder_verif)]
-        if let Some(expired) = self.verif.poll(self.nodes_searched) {
-            return expired;
-        }
+        self.verif.poll(self.nodes_searched);
         if let (Some(start), Some(limit)) = (self.start_time, self.time_limit) {
             start.elapsed() >= limit
         } else {
@@ -186,19 +192,21 @@ impl Default for SearchTimer {
 
 
 /// Verification hooks (only with `--cfg flounder_verif`): a deterministic deadline expressed
-/// in nodes instead of wall-clock time, counters around the first observed expiry, a hard node
-/// cap that turns a runaway search into a recognisable panic, and the in-process image of the
-/// `info` lines.  Nothing here changes behaviour unless a limit or cap is set by the harness.
+/// in nodes instead of wall-clock time (at node `node_limit` the timer's own `time_limit` is
+/// set to zero, so the real deadline test in `should_stop` is what ends the search), passive
+/// counters of the polls made after that point, a hard node cap that turns a runaway search
+/// into a recognisable panic, and the in-process image of the `info` lines.  Nothing here
+/// changes behaviour unless a limit or cap is set by the harness.
 #[cfg(flounder_verif)]
 #[derive(Debug, Clone, Default)]
 pub struct VerifTimerHooks {
-    /// deadline in nodes: `should_stop()` answers `nodes_searched >= limit`
+    /// deadline in nodes: once `nodes_searched >= limit` the timer's time limit is zero
     pub node_limit: Option<u64>,
     /// panic once `nodes_searched` exceeds this (watchdog for the harness)
     pub hard_cap: Option<u64>,
-    /// node count at the first poll that returned true
+    /// node count at the first poll made at or after the node deadline
     pub first_true_at: std::cell::Cell<Option<u64>>,
-    /// number of polls that returned true
+    /// number of polls made at or after the node deadline
     pub polls_true: std::cell::Cell<u64>,
     /// number of polls in total
     pub polls: std::cell::Cell<u64>,
@@ -223,17 +231,15 @@ impl VerifTimerHooks {
         }
     }
 
-    fn poll(&self, nodes: u64) -> Option<bool> {
-        let limit = self.node_limit?;
+    fn poll(&self, nodes: u64) {
+        let Some(limit) = self.node_limit else { return };
         self.polls.set(self.polls.get() + 1);
-        let expired = nodes >= limit;
-        if expired {
+        if nodes >= limit {
             self.polls_true.set(self.polls_true.get() + 1);
             if self.first_true_at.get().is_none() {
                 self.first_true_at.set(Some(nodes));
             }
         }
-        Some(expired)
     }
 
     /// Has the node deadline passed?  (Does not count as a poll.)
